@@ -551,12 +551,60 @@ pub fn c05_specs() -> Vec<Spec> {
     vec![Spec::oneshot(), Spec::uniform(1, Some(1))]
 }
 
+/// True in the unoptimised build profile (`debug0`: opt-level 0, what `cargo build` / `cargo test`
+/// give a user): the driver exports MC_PROFILE. There only the repetition family is run - recursion
+/// that the optimiser turns into a loop overflows the stack only in such a build.
+pub fn deep_profile() -> bool {
+    std::env::var("MC_PROFILE").map_or(false, |p| p == "debug0")
+}
+
+/// `prefix`, `n` times `period`, `suffix`: one construct repeated so often that any per-repetition
+/// stack frame or allocation that is kept shows (stack overflow, heap bound).
+pub fn repeat_doc(name: &str, prefix: &[u8], period: &[u8], n: usize, suffix: &[u8]) -> Doc {
+    let mut b = Vec::with_capacity(prefix.len() + period.len() * n + suffix.len());
+    b.extend_from_slice(prefix);
+    for _ in 0..n {
+        b.extend_from_slice(period);
+    }
+    b.extend_from_slice(suffix);
+    Doc::new(format!("repeat:{name}"), b)
+}
+
+/// Like `repeat_doc`, the k-th repetition rendered by `f(k)` (ids / literals that must increase).
+pub fn numbered_doc(name: &str, prefix: &[u8], n: usize, f: &dyn Fn(usize) -> String, suffix: &[u8]) -> Doc {
+    let mut b = Vec::new();
+    b.extend_from_slice(prefix);
+    for k in 0..n {
+        b.extend_from_slice(f(k).as_bytes());
+    }
+    b.extend_from_slice(suffix);
+    Doc::new(format!("repeat:{name}"), b)
+}
+
 /// Run one C05 unit (subject x document x both schedules) and record the result.
 pub fn c05_unit(subject: &dyn Subject, input: &[u8], report: &mut Report) {
-    for spec in c05_specs() {
+    c05_unit_as(subject, input, false, report)
+}
+
+/// `deep`: a repetition document (hundreds of thousands of repetitions). Schedules are one-shot and
+/// 997 bytes per read with chunk 64; the per-case CPU limit is scaled to the document (and to the
+/// unoptimised profile): 2 s + 40 us per input byte.
+pub fn c05_unit_as(subject: &dyn Subject, input: &[u8], deep: bool, report: &mut Report) {
+    let specs = if deep { vec![Spec::oneshot(), Spec::uniform(997, Some(64))] } else { c05_specs() };
+    for spec in specs {
         report.evaluations += 1;
         report.transitions += 1;
-        let verdict = c05_case(subject, input, &spec);
+        let mut verdict = c05_case(subject, input, &spec);
+        if deep {
+            if let Some((k, what)) = &verdict {
+                if k == "time" {
+                    let secs: f64 = what.split_whitespace().nth(1).and_then(|t| t.trim_end_matches('s').parse().ok()).unwrap_or(f64::MAX);
+                    if secs <= 2.0 + input.len() as f64 * 40e-6 {
+                        verdict = None;
+                    }
+                }
+            }
+        }
         match &verdict {
             None => report.outcome(format!("{}:ok", family_of(subject))),
             Some((k, _)) => report.outcome(format!("{}:{}", family_of(subject), k)),
@@ -1091,7 +1139,8 @@ pub fn c05_isolated(groups: &[(String, Vec<Box<dyn Subject>>, Vec<Doc>)], secs: 
     }
     let run_unit = |i: usize, rep: &mut Report| {
         let (gi, si, di) = units[i];
-        c05_unit(groups[gi].1[si].as_ref(), &groups[gi].2[di].bytes, rep);
+        let doc = &groups[gi].2[di];
+        c05_unit_as(groups[gi].1[si].as_ref(), &doc.bytes, doc.name.starts_with("repeat:"), rep);
         rep.states += 1;
         rep.nontrivial += 1;
     };
